@@ -92,7 +92,7 @@ CHECKS["C10"] = {
             "every reachable state to the real Quart and Flask front ends backed by the real engine (snapshot/restore of the stores; StartExecution is run to quiescence); status, __type and body compared with a "
             "two-map reference, stores compared before/after each error answer and with the reference after each success. Quick: first 160 distinct states per front end; thorough: to the fixed point. Plus 12 pairs of overlapping "
             "requests on the asyncio front end, the two handlers stepped one ready event-loop callback at a time through every interleaving within a deviation bound (1 quick / 2 thorough) of the loop's own order: answers and stores must "
-            "equal one of the two sequential orders.",
+            "equal one of the two sequential orders. The alphabet includes StartExecution without a name (generated names are anonymised in the canonical state, at most two per state) and arrays / objects where string arguments are expected.",
     "note": "Trusted base: the reference map in checks/c10.py, Quart/Flask test clients in place of HTTP, simulated broker for StartExecution. " + SIM,
     "technique": "explicit-state model checking (BFS over reachable store states with a reference-model oracle)",
 }
@@ -141,7 +141,7 @@ CHECKS["C20"] = {
     "engine": "explorer",
     "text": "Explicit-state breadth-first search per store kind (JSONStore, SimpleStore, RedisDictStore, RedisListStore over the simulated server): all sequences of set / nested update or append through the returned "
             "view / get / get_cached_view / delete / in / iterate / len / set_ttl / reopen / corrupt-file reopen / 'deliver one queued invalidation to client c' over 3 keys x 3 values, two clients with cache capacity 2 "
-            "for the Redis kinds, to a fixed point of the canonical state; every placement of every invalidation (single-key and coalesced) between operations is a transition; for the file / in-memory stores the operation path is replayed, with updates in place of what the store handed out and write-backs of the same / an equal value. Oracle: a plain dict; a cached read must equal the backend once no "
+            "for the Redis kinds, to a fixed point of the canonical state; every placement of every invalidation (single-key and coalesced) between operations is a transition; for the file / in-memory stores the operation path is replayed, with updates in place of what the store handed out and write-backs of the same / an equal value; for the Redis kinds also every operation sequence up to length 4 (5 thorough) from clients that have not yet served a cached read (tracking is enabled lazily), and other stores' keys share the keyspace so that SCAN pages can come back empty. Oracle: a plain dict; a cached read must equal the backend once no "
             "invalidation for that client is queued; cache size <= capacity; TTL set; data survives a real stop()/re-create; an unreadable file starts empty.",
     "note": "Trusted base: the simulated redis server / pottery containers (cannot be cross-checked against the real libraries offline) and operation-granularity placement of the invalidation handler (the property's quantifier).",
     "technique": "explicit-state model checking (BFS over operation sequences with state de-duplication, reference-model oracle)",
